@@ -1,5 +1,5 @@
 BASELINE_OFF = ("cd /repo && GOFLAGS=-mod=mod GOPROXY=off go test -vet=off -count=1 -timeout 25m ./...")
-HOOK_COMMITS = ["3eb0f143", "ec29f447", "f0d610d1", "122052f1"]
+HOOK_COMMITS = ["3eb0f143", "ec29f447", "f0d610d1", "122052f1", "836267ab"]
 NOTES = ("One engine. Every check is `python3 tools/check.py <id> --tier quick|thorough`; exit 0/1/2 as in DESIGN.md 1.1. "
          "Scratch files live in /verif/.work (ignored by git).")
 
@@ -138,7 +138,9 @@ CHECKS = {
           "and node state, sequentially (sequences <= 3; Responds, NoLockLeft) and with one request interleaved with one internal step of the daemon at lock operations (NoDeadlock). Every (state x endpoint x "
           "shape) edge is replayed on real daemons in four node states (fresh, proposal, running, stopped): directly under a deadline with goroutine-dump diagnosis, then through the real loopback gRPC / REST "
           "listeners; after each call probe calls, TryLock observations, a beacon-loop liveness check and a process-alive check. Thorough adds seeded random protobuf-valid variants per class; gated "
-          "concurrent scenarios run against a DKG result being stored. TLC trace validation evaluates Responds / StillServes / NoLockLeft / LoopAlive / ProcessAlive / NoDeadlock.",
+          "concurrent scenarios run against a DKG result being stored. TLC trace validation evaluates Responds / StillServes / NoLockLeft / LoopAlive / ProcessAlive / NoDeadlock. "
+          "HTTP relay hand-over: HttpRelay.tla SpecFine (watch loop critical section and the waiter's select as separate steps, channel capacity as a constant) checked exhaustively; the Cap=0 counterexample "
+          "schedule and a tour of the hand-over graph are replayed on the real DrandHandler with the loop gated inside its critical section; RelayNotWedged judged on loop completion, handler returns and probes.",
   "design_ref": "DESIGN.md 4 C14",
   "note": "Requests are wire-reachable (every message passes Marshal/Unmarshal). A handler panic counts as contained when the listener's caller gets an error and the process keeps serving. The DKG execution "
           "phase (echoBroadcast) is modelled but not replayed. Blocked = no return in 5 s (4x extra when the goroutine is not waiting on a lock).",
